@@ -123,6 +123,7 @@ type party struct {
 	// bookkeeping for oracles
 	sent     [][]byte // texts passed to Send while encrypted (or queued)
 	received [][]byte // plaintexts returned by Receive
+	lastReal time.Time // wall clock at the start of the previous call (see world.sync)
 }
 
 func (p *party) HandleMessageEvent(event otr3.MessageEvent, message []byte, err error, trace ...interface{}) {
@@ -296,6 +297,18 @@ func guard(f func() string) (res string) {
 	return f()
 }
 
+// The library reads the wall clock, the model's clock only moves with `tick`. Before every call the
+// real time that passed since this party's previous call began is cancelled (the stored time stamps
+// are moved forward by it), so that what the library measures is the virtual time plus at most the
+// duration of one call: a loaded machine must not carry an interval over a 60 s threshold.
+func (w *world) sync(p *party) {
+	now := time.Now()
+	if !p.lastReal.IsZero() {
+		otr3.VerifShiftClock(p.c, -now.Sub(p.lastReal))
+	}
+	p.lastReal = now
+}
+
 func (w *world) tick(d int) {
 	for _, p := range w.parties {
 		otr3.VerifShiftClock(p.c, time.Duration(d)*time.Second)
@@ -304,6 +317,7 @@ func (w *world) tick(d int) {
 }
 
 func (w *world) recv(p *party, m []byte) (plain []byte, toSend []otr3.ValidMessage, err error, panicked bool) {
+	w.sync(p)
 	res := guard(func() string {
 		plain, toSend, err = p.c.Receive(otr3.ValidMessage(m))
 		return fmt.Sprintf("plain=%s send=%s err=%s", plainStr(plain), msgsStr(toSend), otr3.VerifErrClass(err))
@@ -324,6 +338,7 @@ func (w *world) recv(p *party, m []byte) (plain []byte, toSend []otr3.ValidMessa
 }
 
 func (w *world) send(p *party, m []byte) (toSend []otr3.ValidMessage, err error) {
+	w.sync(p)
 	res := guard(func() string {
 		toSend, err = p.c.Send(otr3.ValidMessage(m))
 		return fmt.Sprintf("send=%s err=%s", msgsStr(toSend), otr3.VerifErrClass(err))
@@ -340,6 +355,7 @@ func (w *world) send(p *party, m []byte) (toSend []otr3.ValidMessage, err error)
 }
 
 func (w *world) end(p *party) (toSend []otr3.ValidMessage, err error) {
+	w.sync(p)
 	res := guard(func() string {
 		toSend, err = p.c.End()
 		return fmt.Sprintf("send=%s err=%s", msgsStr(toSend), otr3.VerifErrClass(err))
@@ -356,6 +372,7 @@ func (w *world) end(p *party) (toSend []otr3.ValidMessage, err error) {
 }
 
 func (w *world) smpStart(p *party, question string, secret []byte) (toSend []otr3.ValidMessage, err error) {
+	w.sync(p)
 	res := guard(func() string {
 		toSend, err = p.c.StartAuthenticate(question, secret)
 		return fmt.Sprintf("send=%s err=%s", msgsStr(toSend), otr3.VerifErrClass(err))
@@ -372,6 +389,7 @@ func (w *world) smpStart(p *party, question string, secret []byte) (toSend []otr
 }
 
 func (w *world) smpSecret(p *party, secret []byte) (toSend []otr3.ValidMessage, err error) {
+	w.sync(p)
 	res := guard(func() string {
 		toSend, err = p.c.ProvideAuthenticationSecret(secret)
 		return fmt.Sprintf("send=%s err=%s", msgsStr(toSend), otr3.VerifErrClass(err))
@@ -388,6 +406,7 @@ func (w *world) smpSecret(p *party, secret []byte) (toSend []otr3.ValidMessage, 
 }
 
 func (w *world) smpAbort(p *party) (toSend []otr3.ValidMessage, err error) {
+	w.sync(p)
 	res := guard(func() string {
 		toSend, err = p.c.AbortAuthentication()
 		return fmt.Sprintf("send=%s err=%s", msgsStr(toSend), otr3.VerifErrClass(err))
@@ -404,6 +423,7 @@ func (w *world) smpAbort(p *party) (toSend []otr3.ValidMessage, err error) {
 }
 
 func (w *world) extraKey(p *party, usage uint32, data []byte) (key []byte, toSend []otr3.ValidMessage, err error) {
+	w.sync(p)
 	res := guard(func() string {
 		key, toSend, err = p.c.UseExtraSymmetricKey(usage, data)
 		return fmt.Sprintf("key=%s send=%s err=%s", hx(key), msgsStr(toSend), otr3.VerifErrClass(err))
